@@ -122,6 +122,17 @@ def node_starts(text: str) -> Optional[Set[Tuple[int, int]]]:
             at = d_prefix.rfind("@")
             if at >= 0:
                 starts.add((decorator.lineno, at + 1))
+    # ``ast.comprehension`` nodes carry no position; an error located at one points to its
+    # ``for`` (or ``async``) keyword, which is the start of that construct.
+    import io
+    import tokenize
+
+    try:
+        for token in tokenize.generate_tokens(io.StringIO(text).readline):
+            if token.type == tokenize.NAME and token.string in ("for", "async"):
+                starts.add((token.start[0], token.start[1] + 1))
+    except (tokenize.TokenError, IndentationError, SyntaxError):
+        pass
     return starts
 
 
